@@ -145,3 +145,10 @@ CASES += [
          "            Nm = Km.shape[0]\n            if (self._Kd is None) or (self._Kd_basis != self.get_current_basis()):\n                self._Kd = numpy.conj(numpy.transpose(Km, (0, 2, 1)))\n                self._Kd_basis = self.get_current_basis()\n            Kd = self._Kd\n            ven = numpy.zeros(oper.data.shape, dtype=numpy.complex128)\n            for mm in range(Nm):\n", 1),
         (L + "redfieldtensor.py", "    Km = BasisManagedComplexArray(\"Km\")\n", "    Km = BasisManagedComplexArray(\"Km\")\n    _Kd = None\n    _Kd_basis = None\n", 1)]},
 ]
+
+CASES += [
+    {"name": "component operator built on a view of the dipole storage (the repaired defect)", "kind": "mutant", "rule": "C04-B11", "edits": [
+        ("quantarhei/qm/hilbertspace/dmoment.py", "                                   data=self.data[:,:,n].copy())", "                                   data=self.data[:,:,n])", 1)]},
+    {"name": "tensors added through their raw storages (the repaired defect)", "kind": "mutant", "rule": "C04-B12", "edits": [
+        ("quantarhei/qm/liouvillespace/relaxationtensor.py", "        self.data = self.data + other.data\n        return self", "        self._data += other._data\n        return self", 1)]},
+]
